@@ -1,6 +1,6 @@
 (* C17 — non-vacuity examples for the hypotheses of Props.v, and refutation witnesses *)
 From Coq Require Import ZArith List Lia.
-From FV Require Import C17.Model C17.Proofs.
+From FV Require Import C17.Model C17.Proofs C17.Idempotent.
 Import ListNotations.
 Open Scope Z_scope.
 
@@ -95,3 +95,20 @@ Proof.
   split; [apply memz_In; vm_compute; reflexivity|]. split; [vm_compute; reflexivity|].
   intros H. apply memz_In in H. congruence.
 Qed.
+
+(* c17_subset_idempotent: the hypotheses hold for ex_font / request 'B', and the second run keeps 0..3 *)
+Definition closedb (F : afont) (K : list Z) : bool :=
+  forallb (fun g => match glyph_at F g with GC cs _ => forallb (fun c => memz c K) cs | _ => true end) K.
+Definition ex_font' : afont :=
+  subset_afont [0; 1; 2; 4] [GE; GS 11; GC [1; 3] 12; GS 14] [(500, 1); (600, 2); (700, 3)] [5] [(66, 2)].
+Example ex_idem :
+  f_colr ex_font = None /\ f_uvs ex_font = []
+  /\ glyf_subset ex_font false false (kept_glyphs ex_font [] [66]) = Some (f_glyphs ex_font')
+  /\ cmap_subset false (kept_glyphs ex_font [] [66]) (unicode_list ex_font [] [66]) = Some (f_cmap ex_font')
+  /\ (forall cs h, glyph_at ex_font 0 <> GC cs h)
+  /\ closedb ex_font (kept_glyphs ex_font [] [66]) = true
+  /\ closedb ex_font' (kept_glyphs ex_font' (renumber_request [0; 1; 2; 4] []) [66]) = true
+  /\ kept_glyphs ex_font' (renumber_request [0; 1; 2; 4] []) [66] = [0; 1; 2; 3]
+  /\ subset_model ex_font' [] [66] 0 =
+       Out 4 (Some [GE; GS 11; GC [1; 3] 12; GS 14]) (Some (3, [(500, 1); (600, 2); (700, 3); (700, 5)])) [(66, 2)].
+Proof. repeat split; try reflexivity. intros cs h; vm_compute; discriminate. Qed.
